@@ -30,7 +30,7 @@ def _transcript_case(name, props):
     res.outcomes = {'session transcript compared': 1}
     res.samples = [{'session': name, 'messages_compared': n_msgs, 'discrepancies': len(mine)}]
     res.detail = f'{n_msgs} messages; ' + '; '.join(mine[:2])
-    if other:
+    if other and not mine:
         res.status = 'inconclusive'
         res.detail = 'session did not complete (see C09): ' + '; '.join(other)
     elif mine:
